@@ -161,14 +161,25 @@ func c01(w, tw *h.W, tier string, seed int64, only string) {
 					ks = append(ks, k)
 				}
 			} else {
+				// stratified: the first and the last call of every call class (close:input, write:temp, rename:temp ...)
+				// plus two seeded positions, so that every kind of call of every operation is faulted in the quick tier
 				seen := map[int]bool{}
-				for len(seen) < 4 && len(seen) < n {
+				first, last := map[string]int{}, map[string]int{}
+				for k := 1; k <= n; k++ {
+					c := callClass(base.Events[k-1].Op + " " + base.Events[k-1].A)
+					if _, ok := first[c]; !ok {
+						first[c] = k
+					}
+					last[c] = k
+				}
+				for c := range first {
+					seen[first[c]] = true
+					seen[last[c]] = true
+				}
+				for i := 0; i < 2; i++ {
 					seen[1+rng.Intn(n)] = true
 				}
 				seen[n] = true
-				if n > 1 {
-					seen[n-1] = true
-				}
 				for k := range seen {
 					ks = append(ks, k)
 				}
